@@ -221,3 +221,97 @@ Example C02_lax_exts_iter_ex :
   end = (true, Some [(40, 8)]).
 Proof. vm_compute. reflexivity. Qed.
 (* ---- end extend-c01b ---- *)
+
+(* ---- audit follow-up (round 1) ---- *)
+(* ======================================================================== *)
+(* The strict single-layer CONSTRUCTORS are total on every slice value: for an arbitrary
+   standalone slice (any pointer offset, any contents -- no byte-range hypothesis --, any
+   length, accepted or rejected) each run `returns`: it is Ok _ or Err _, never a panic
+   site, a failing unchecked primitive or an exhausted loop bound (the extension walk of
+   Ipv6ExtensionsSlice::from_slice ends within length + 1 iterations: every continuing
+   iteration consumes at least 8 bytes).  Same list as C01_single_layer_ctor_no_oob.
+   Proofs: Parse/CtorsTotal.v. *)
+From EP Require Import Parse.CtorsTotal.
+
+Theorem C02_single_layer_ctor_total : forall s,
+  returns (Ethernet2A.from_slice_without_fcs s) /\ returns (Ethernet2A.from_slice_with_crc32_fcs s) /\
+  returns (LinuxSll.header_from_slice s) /\ returns (LinuxSll.from_slice s) /\
+  returns (SingleVlanSlice.from_slice s) /\
+  returns (Macsec.header_from_slice s) /\ returns (Macsec.from_slice s) /\
+  returns (ArpPacketSlice.from_slice s) /\
+  returns (Ipv4HeaderSlice.from_slice s) /\ returns (Ipv4Slice.from_slice s) /\
+  returns (Ipv6HeaderSlice.from_slice s) /\ returns (Ipv6Slice.from_slice s) /\
+  returns (IpSlice.from_slice s) /\
+  returns (IpAuthHeaderSlice.from_slice s) /\ returns (Ipv6RawExtHeaderSlice.from_slice s) /\
+  returns (Ipv6FragmentHeaderSlice.from_slice s) /\
+  (forall nh, returns (Ipv6ExtensionsSlice.from_slice nh s)) /\
+  returns (UdpSlice.header_from_slice s) /\ returns (UdpSlice.from_slice s) /\
+  returns (UdpSlice.from_slice_lax s) /\
+  returns (TcpHeaderSliceA.from_slice s) /\ returns (TcpSlice.from_slice s) /\
+  returns (Icmpv4Slice.from_slice s) /\ returns (Icmpv6Slice.from_slice s).
+Proof. exact single_layer_ctor_returns. Qed.
+Print Assumptions C02_single_layer_ctor_total.
+
+(* the extension walk in isolation: any fuel above the length of what is left suffices *)
+Theorem C02_exts_walk_fuel : forall fuel start_len rest nh fr,
+  (N.to_nat (s_len rest) < fuel)%nat -> s_len rest <= start_len ->
+  nobug (Ipv6ExtensionsSlice.walk fuel start_len rest nh fr).
+Proof. exact nb_walk. Qed.
+Print Assumptions C02_exts_walk_fuel.
+
+(* ---- fixed-width overflow (Parse/UsizeBounds.v) ------------------------------------
+   Overflow of a usize `+` / `*` is not a failure value of the models of Parse/Slices.v
+   (they compute in N).  For the strict single-layer constructors that add or multiply,
+   the copies with every such operation CHECKED against a usize of M values
+   (addC / mulC: Bug SITE_OVERFLOW when the exact result is >= M) are EQUAL to the models,
+   for every M >= 2^17 -- 32-bit and 64-bit usize included -- and every slice of bytes,
+   of any length: all operands are widened u8 / u16 fields or constants.  The remaining
+   constructors contain no usize addition or multiplication.  Not covered: the offset
+   bookkeeping (cursor offset + header length / pointer difference, layer_start_offset
+   fix-ups of LenErrors), the accessors and conversions, the lax and struct decoders. *)
+From EP Require Import Parse.UsizeBounds.
+
+Theorem C02_no_usize_overflow : forall M s, 2 ^ 17 <= M -> bytes_ok (snd s) ->
+  macsec_header_from_slice M s = Macsec.header_from_slice s /\
+  macsec_from_slice M s = Macsec.from_slice s /\
+  arp_from_slice M s = ArpPacketSlice.from_slice s /\
+  ipv4_header_from_slice M s = Ipv4HeaderSlice.from_slice s /\
+  auth_from_slice M s = IpAuthHeaderSlice.from_slice s /\
+  raw_from_slice M s = Ipv6RawExtHeaderSlice.from_slice s /\
+  ipv6_from_slice M s = Ipv6Slice.from_slice s /\
+  ip_from_slice M s = IpSlice.from_slice s.
+Proof. exact no_usize_overflow. Qed.
+Print Assumptions C02_no_usize_overflow.
+
+(* 32-bit usize: the checked constructors never report an overflow (nor any other Bug) *)
+Theorem C02_no_usize_overflow_32 : forall s b, bytes_ok (snd s) ->
+  macsec_header_from_slice (2 ^ 32) s <> Bug b /\ macsec_from_slice (2 ^ 32) s <> Bug b /\
+  arp_from_slice (2 ^ 32) s <> Bug b /\ ipv4_header_from_slice (2 ^ 32) s <> Bug b /\
+  auth_from_slice (2 ^ 32) s <> Bug b /\ raw_from_slice (2 ^ 32) s <> Bug b /\
+  ipv6_from_slice (2 ^ 32) s <> Bug b /\ ip_from_slice (2 ^ 32) s <> Bug b.
+Proof. exact no_usize_overflow_32. Qed.
+Print Assumptions C02_no_usize_overflow_32.
+
+(* ---- non-vacuity ---------------------------------------------------------- *)
+(* rejected inputs return Err; the overflow site is reachable: a 16-bit usize overflows on
+   40 + 65535, and the checked primitives report it; the largest lengths the constructors
+   compute from the contents (ARP 8+2*255+2*255, auth (255+2)*4, raw (255+1)*8) are reached *)
+Example C02_ctor_total_ex :
+  (exists e, Ipv4Slice.from_slice (mk_slice [69;0;0]) = Err e) /\
+  (exists e, Ipv6ExtensionsSlice.from_slice 0 (mk_slice [43;0;0;0;0;0;0;0; 59;1;0;0]) = Err e) /\
+  (exists v, Ipv6ExtensionsSlice.from_slice 0 (mk_slice [43;0;0;0;0;0;0;0; 59;0;0;0;0;0;0;0]) = Ok v) /\
+  Ipv6ExtensionsSlice.walk 1 16 (mk_slice [43;0;0;0;0;0;0;0; 59;0;0;0;0;0;0;0]) 60 false = Bug SITE_FUEL /\
+  ipv6_finish (2 ^ 16) (mk_slice (repeat 0 41%nat))
+    (mk_slice ([96;0;0;0; 255;255; 59; 64] ++ repeat 0 32%nat)) = Bug SITE_OVERFLOW /\
+  addC (2 ^ 32) 4294967295 1 = Bug SITE_OVERFLOW /\
+  (match arp_from_slice (2 ^ 32) (mk_slice ([0;1;8;0;255;255;0;1] ++ repeat 0 1020%nat)) with
+   | Ok a => s_len a | _ => 0 end,
+   match auth_from_slice (2 ^ 32) (mk_slice ([17;255] ++ repeat 0 1026%nat)) with
+   | Ok a => s_len a | _ => 0 end,
+   match raw_from_slice (2 ^ 32) (mk_slice ([17;255] ++ repeat 0 2046%nat)) with
+   | Ok a => s_len a | _ => 0 end) = (1028, 1028, 2048).
+Proof.
+  split; [eexists; vm_compute; reflexivity|]. split; [eexists; vm_compute; reflexivity|].
+  split; [eexists; vm_compute; reflexivity|]. vm_compute. repeat split.
+Qed.
+(* ---- end audit follow-up ---- *)
